@@ -352,6 +352,13 @@ Example C01_example_seeds :
   (length gen_rng_sites >= 30)%nat /\ src_kind SCreateAgents = KModelRandom /\ src_kind SLegacyAgents = KFirstAgentOrNone.
 Proof. vm_compute. repeat split; try congruence; try lia. Qed.
 
+(* T1 table: nowhere in mesa/ are the elements of a set / dict-view difference consumed in iteration order (for,
+   comprehension, list(), random choice ...) without sorted(): such an order depends on memory addresses, i.e. on what ran
+   earlier in the process *)
+Theorem C01_no_unordered_iteration_sites : gen_unordered_iteration_sites = [].
+Proof. vm_compute. reflexivity. Qed.
+Print Assumptions C01_no_unordered_iteration_sites.
+
 (* ---------------------------------------------------------------- T1 table: nothing in mesa/ (library and bundled
    examples) touches a process-global generator.  LAST in this file on purpose: when the scan finds a site this
    statement stops checking and the run reports the tie as broken (the oracle then supplies the failing model). *)
